@@ -484,6 +484,8 @@ func checkC06(ctx *Ctx) {
 	if ctx.Shard == 1 || ctx.NShards == 1 {
 		ctx.SetCurrent("C06 pipelined commands across ACL DELUSER")
 		c06PipelinedDeluser(ctx, in, port, admin)
+		ctx.SetCurrent("C06 ACL DELUSER during an authorization")
+		c06DeluserDuringAuthorization(ctx, in, port, admin)
 	}
 }
 
@@ -806,5 +808,87 @@ func c06PipelinedDeluser(ctx *Ctx, in *Inst, port int, admin *Client) {
 			return
 		}
 		_ = rep
+	}
+}
+
+// c06DeluserDuringAuthorization: a command added through the public AddCommand API has a key-extraction
+// function the harness can hold, so that "the command is inside its authorization" becomes an observable
+// state. While it is held there, the administrator deletes the user. Either the deletion waits for the
+// authorization to finish (then the command was decided before the deletion and may run), or it is answered
+// first - and then the command, decided after it, must be refused and its handler must not run.
+func c06DeluserDuringAuthorization(ctx *Ctx, in *Inst, port int, admin *Client) {
+	var held, armed atomic.Bool
+	var ran atomic.Int64
+	entered, release := make(chan struct{}, 1), make(chan struct{})
+	err := in.S.AddCommand(sugardb.CommandOptions{
+		Command: "verifprobe", Module: "verif", Categories: []string{"read", "fast"}, Description: "(VERIFPROBE key) harness probe", Sync: false,
+		KeyExtractionFunc: func(cmd []string) (sugardb.CommandKeyExtractionFuncResult, error) {
+			if armed.CompareAndSwap(true, false) {
+				held.Store(true)
+				entered <- struct{}{}
+				select {
+				case <-release:
+				case <-time.After(20 * time.Second):
+				}
+			}
+			if len(cmd) != 2 {
+				return sugardb.CommandKeyExtractionFuncResult{}, fmt.Errorf("wrong number of arguments")
+			}
+			return sugardb.CommandKeyExtractionFuncResult{ReadKeys: []string{cmd[1]}, WriteKeys: []string{}}, nil
+		},
+		HandlerFunc: func(params sugardb.CommandHandlerFuncParams) ([]byte, error) {
+			ran.Add(1)
+			return []byte("+RAN\r\n"), nil
+		},
+	})
+	if err != nil {
+		ctx.Count("deluser_during_authorization_skipped", 1)
+		return
+	}
+	admin.Do("ACL", "DELUSER", "u1")
+	all := aclRules{Enabled: true, AllCats: true, AllCmds: true, AllChans: true}
+	if v, _, err := admin.Do(append([]string{"ACL", "SETUSER", "u1"}, all.tokens()...)...); err != nil || v.IsError() {
+		return
+	}
+	c, err := Dial(port)
+	if err != nil {
+		return
+	}
+	defer c.Close()
+	if v, _, _ := c.Do("AUTH", "u1", "pw"); v.IsError() {
+		return
+	}
+	armed.Store(true)
+	_ = c.Send(resp.Encode("VERIFPROBE", "r:s1"))
+	select {
+	case <-entered:
+	case <-time.After(10 * time.Second):
+		close(release)
+		ctx.Inconclusive("deluser-during-authorization: the probe command never reached its key extraction")
+		return
+	}
+	delDone := make(chan resp.Value, 1)
+	go func() {
+		v, _, _ := admin.Do("ACL", "DELUSER", "u1")
+		delDone <- v
+	}()
+	deletedFirst := false
+	select {
+	case <-delDone:
+		deletedFirst = true // answered while the command was still inside its authorization
+	case <-time.After(300 * time.Millisecond):
+		// the deletion waits for the authorization (steering only: decides nothing)
+	}
+	close(release)
+	if !deletedFirst {
+		<-delDone
+	}
+	r, _, rerr := c.Read(20 * time.Second)
+	ctx.Eval(1)
+	ctx.Class(fmt.Sprintf("deluser-during-authorization|deletion-answered-first=%v", deletedFirst))
+	if deletedFirst && rerr == nil && !r.IsError() && ran.Load() > 0 {
+		ctx.Violate(Violation{Kind: "unauthorized", Lane: "deluser-during-authorization",
+			What: fmt.Sprintf("ACL DELUSER u1 was answered OK while u1's command was inside its authorization (held in its key extraction); the command was then answered %s and its handler ran: a command decided after the deletion of its user was allowed", trunc(r.String(), 60)),
+			Case: map[string]interface{}{"command": "VERIFPROBE r:s1"}, Key: "c06|deluser-during-authorization"})
 	}
 }
